@@ -192,12 +192,6 @@ def oms_causes(case, eq, pre, post, p0, pref, pref_total):
         voa_auto = u_voa is None and sp['power_mode'] and bool(a.out_voa_auto)
         if voa_auto and pref_total + r['_delta_p'] > a.p_max + 1e-9:
             causes.setdefault('voa-rounding-above-pmax', idx)
-        # finding raman-launch-power-ignores-voa: the Raman gain estimate of a RamanFiber uses the output of the amplifier
-        # in front of it BEFORE its VOA; after export the VOA share is part of delta_p, so the estimate moves
-        if r['out_voa']:
-            nxt = next((j for j in range(idx + 1, len(post)) if post[j]['kind'] in ('raman', 'edfa')), None)
-            if nxt is not None and post[nxt]['kind'] == 'raman':
-                causes.setdefault('raman-launch-power-ignores-voa', nxt)
         # open finding gain-mode-in-voa-saturation (C09): in gain mode the code leaves in_voa out of the saturation
         # estimate; an amplifier whose estimate sits at p_max is reduced again by every redesign
         p_in = pref_total + off - loss - r['in_voa']
@@ -420,7 +414,7 @@ def classify_diff(case, uid, path, v1, v2, owner, causes, postk):
             return 'K1-eol-redesign-drift'
         if path in ('operational.delta_p',) and not sp['power_mode']:
             return 'unlisted'
-    for cls in ('voa-rounding-above-pmax', 'gain-mode-in-voa-saturation', 'raman-launch-power-ignores-voa'):
+    for cls in ('voa-rounding-above-pmax', 'gain-mode-in-voa-saturation'):
         if cls in cs and k >= cs[cls] and numeric and path in ('operational.gain_target', 'operational.delta_p'):
             return cls
     return 'unlisted'
